@@ -60,9 +60,13 @@ func (k msgServer) AddFeeToDispute(goCtx context.Context,
 	if msg.Amount.Amount.GT(fee) {
 		msg.Amount.Amount = fee
 	}
-	// dispute fee payer
+	// dispute fee payer; a payer that adds to the fee again keeps what was recorded before
+	paid := msg.Amount.Amount
+	if prev, err := k.Keeper.DisputeFeePayer.Get(ctx, collections.Join(dispute.DisputeId, sender.Bytes())); err == nil {
+		paid = paid.Add(prev.Amount)
+	}
 	if err := k.Keeper.DisputeFeePayer.Set(ctx, collections.Join(dispute.DisputeId, sender.Bytes()), types.PayerInfo{
-		Amount:   msg.Amount.Amount,
+		Amount:   paid,
 		FromBond: msg.PayFromBond,
 	}); err != nil {
 		return nil, err
